@@ -1,7 +1,8 @@
-package main
+package hc
 
 import (
 	"bufio"
+	"flag"
 	"bytes"
 	"context"
 	"encoding/hex"
@@ -97,7 +98,7 @@ func (o *Out) Close() {
 
 var two1074 = new(big.Float).SetMantExp(big.NewFloat(1), 1074)
 
-func encF(f float64) string {
+func EncF(f float64) string {
 	switch {
 	case math.IsNaN(f):
 		return "nan"
@@ -117,7 +118,7 @@ func encF(f float64) string {
 	return i.String()
 }
 
-func encT(t ternary.Value) string {
+func EncT(t ternary.Value) string {
 	switch t {
 	case ternary.TRUE:
 		return "T"
@@ -127,20 +128,20 @@ func encT(t ternary.Value) string {
 	return "U"
 }
 
-func encTime(t time.Time) string {
+func EncTime(t time.Time) string {
 	n := new(big.Int).Mul(big.NewInt(t.Unix()), big.NewInt(1000000000))
 	n.Add(n, big.NewInt(int64(t.Nanosecond())))
 	return n.String()
 }
 
-func encVal(p value.Primary) string {
+func EncVal(p value.Primary) string {
 	switch v := p.(type) {
 	case *value.Null:
 		return "N"
 	case *value.Integer:
 		return fmt.Sprintf("I%d", v.Raw())
 	case *value.Float:
-		return "F" + encF(v.Raw())
+		return "F" + EncF(v.Raw())
 	case *value.String:
 		return "S" + hex.EncodeToString([]byte(v.Raw()))
 	case *value.Boolean:
@@ -149,47 +150,47 @@ func encVal(p value.Primary) string {
 		}
 		return "B0"
 	case *value.Ternary:
-		return "T" + encT(v.Ternary())
+		return "T" + EncT(v.Ternary())
 	case *value.Datetime:
-		return "D" + encTime(v.Raw())
+		return "D" + EncTime(v.Raw())
 	}
 	panic(fmt.Sprintf("unknown primary %T", p))
 }
 
-// trimSpaceRef: the documented "trimmed text" as csvq implements it (option.TrimSpace), written
+// TrimSpaceRef: the documented "trimmed text" as csvq implements it (option.TrimSpace), written
 // independently: if the first or last *byte* is a space rune, strings.TrimSpace applies.
-func trimSpaceRef(s string) string {
+func TrimSpaceRef(s string) string {
 	if 0 < len(s) && (unicode.IsSpace(rune(s[0])) || unicode.IsSpace(rune(s[len(s)-1]))) {
 		return strings.TrimSpace(s)
 	}
 	return s
 }
 
-var utc = time.UTC
+var UTC = time.UTC
 
-// encProfile asks the real conversion functions what they make of p.
-func encProfile(p value.Primary) string {
+// EncProfile asks the real conversion functions what they make of p.
+func EncProfile(p value.Primary) string {
 	if _, ok := p.(*value.String); !ok {
-		return encVal(p) // the model derives the profile of non-strings itself (validated by stream prof)
+		return EncVal(p) // the model derives the profile of non-strings itself (validated by stream prof)
 	}
-	return encFullProfile(p)
+	return EncFullProfile(p)
 }
 
-func encFullProfile(p value.Primary) string {
+func EncFullProfile(p value.Primary) string {
 	parts := make([]string, 7)
-	parts[0] = encVal(p)
+	parts[0] = EncVal(p)
 	if i := value.ToIntegerStrictly(p); !value.IsNull(i) {
 		parts[1] = fmt.Sprintf("%d", i.(*value.Integer).Raw())
 	} else {
 		parts[1] = "-"
 	}
 	if f := value.ToFloat(p); !value.IsNull(f) {
-		parts[2] = encF(f.(*value.Float).Raw())
+		parts[2] = EncF(f.(*value.Float).Raw())
 	} else {
 		parts[2] = "-"
 	}
-	if d := value.ToDatetime(p, nil, utc); !value.IsNull(d) {
-		parts[3] = encTime(d.(*value.Datetime).Raw())
+	if d := value.ToDatetime(p, nil, UTC); !value.IsNull(d) {
+		parts[3] = EncTime(d.(*value.Datetime).Raw())
 	} else {
 		parts[3] = "-"
 	}
@@ -203,11 +204,11 @@ func encFullProfile(p value.Primary) string {
 		parts[4] = "-"
 	}
 	if s, ok := p.(*value.String); ok {
-		parts[5] = "x" + hex.EncodeToString([]byte(strings.ToUpper(trimSpaceRef(s.Raw()))))
+		parts[5] = "x" + hex.EncodeToString([]byte(strings.ToUpper(TrimSpaceRef(s.Raw()))))
 	} else {
 		parts[5] = "-"
 	}
-	parts[6] = encT(p.Ternary())
+	parts[6] = EncT(p.Ternary())
 	return strings.Join(parts, ";")
 }
 
@@ -316,7 +317,7 @@ func (g *Gen) Val() value.Primary {
 	return value.NewDatetime(g.Time())
 }
 
-func className(p value.Primary) string {
+func ClassName(p value.Primary) string {
 	switch p.(type) {
 	case *value.Null:
 		return "null"
@@ -336,9 +337,9 @@ func className(p value.Primary) string {
 
 // ---------- running SQL through the real processor, in-process ----------
 
-type nopCloser struct{ *bytes.Buffer }
+type NopCloser struct{ *bytes.Buffer }
 
-func (nopCloser) Close() error { return nil }
+func (NopCloser) Close() error { return nil }
 
 type Proc struct {
 	P      *query.Processor
@@ -351,8 +352,8 @@ func NewProc(repo string) *Proc {
 	ctx := context.Background()
 	sess := query.NewSession()
 	so, se := &bytes.Buffer{}, &bytes.Buffer{}
-	sess.SetStdout(nopCloser{so})
-	sess.SetStderr(nopCloser{se})
+	sess.SetStdout(NopCloser{so})
+	sess.SetStderr(NopCloser{se})
 	tx, err := query.NewTransaction(ctx, file.DefaultWaitTimeout, file.DefaultRetryDelay, sess)
 	if err != nil {
 		panic(err)
@@ -399,8 +400,8 @@ func (p *Proc) Close() {
 	_ = p.P.ReleaseResourcesWithErrors()
 }
 
-// errCode maps an error to csvq's own error code (0 = no error, -1 = not a csvq error).
-func errCode(err error) int {
+// ErrCode maps an error to csvq's own error code (0 = no error, -1 = not a csvq error).
+func ErrCode(err error) int {
 	if err == nil {
 		return 0
 	}
@@ -410,11 +411,25 @@ func errCode(err error) int {
 	return -1
 }
 
-func sortedKeys(m map[string]int) []string {
+func SortedKeys(m map[string]int) []string {
 	ks := make([]string, 0, len(m))
 	for k := range m {
 		ks = append(ks, k)
 	}
 	sort.Strings(ks)
 	return ks
+}
+
+// Main parses the common flags of a stream binary and runs it.
+func Main(run func(seed int64, n int, out string, args []string)) {
+	fs := flag.NewFlagSet(os.Args[0], flag.ExitOnError)
+	seed := fs.Int64("seed", 1, "PRNG seed")
+	n := fs.Int("n", 1000, "number of generated cases")
+	out := fs.String("out", "", "output directory")
+	_ = fs.Parse(os.Args[1:])
+	if *out == "" {
+		fmt.Fprintln(os.Stderr, "-out is required")
+		os.Exit(2)
+	}
+	run(*seed, *n, *out, fs.Args())
 }
